@@ -1,6 +1,7 @@
 import SaModel.Lemmas.C17UntouchedLeaf
 /-
-C17, `untouched_ok` — the element loops and `deserialize_any`.
+C17, `untouched_ok` — the element loops and `deserialize_any` (targets `any` / `IgnoredAny`): structural recursion over
+the array.
 -/
 namespace SaModel.Props.C17
 open SaModel SaModel.Read SaModel.Spec
@@ -18,14 +19,9 @@ theorem readRange_congr {α} {f g : Nat → R α} : ∀ (n s : Nat), (∀ k, k <
       exact hk1)
     rw [h0, hrest]
 
-theorem anyAt_congr {a a' : Arr} {f g : Nat → R DVal} {i : Nat} (h1 : isSome Fixes.all a i = isSome Fixes.all a' i)
-    (h2 : f i = g i) : anyAt Fixes.all a f i = anyAt Fixes.all a' g i := by
-  unfold anyAt
-  rw [h1, h2]
-
-/-- the offsets `listRange` returns are the ones `offRange` reads off the same two entries -/
-theorem listRange_offRange {offs : List Int} {i s e : Nat} (h : listRange Fixes.all offs i = .ok (s, e)) :
-    offRange offs[i]? offs[i + 1]? = (s, e - s) := by
+/-- the two offsets `listRange` read -/
+theorem listRange_parts {offs : List Int} {i s e : Nat} (h : listRange Fixes.all offs i = .ok (s, e)) :
+    i < offs.length - 1 ∧ offs[i]? = some (s : Int) ∧ offs[i + 1]? = some (e : Int) := by
   unfold listRange at h
   split at h
   · cases h
@@ -43,31 +39,29 @@ theorem listRange_offRange {offs : List Int} {i s e : Nat} (h : listRange Fixes.
       subst hs' he'
       unfold tryIntoUsize at hs he
       split at hs
-      · rename_i hs0
-        split at he
-        · rename_i he0
-          cases hs; cases he
-          have : 0 ≤ offs[i] ∧ offs[i] ≤ offs[i + 1] := by omega
-          simp only [offRange, this, and_self, if_true]
+      · split at he
+        · cases hs; cases he
+          refine ⟨by omega, ?_, ?_⟩
+          · simp only [Option.some.injEq]; omega
+          · simp only [Option.some.injEq]; omega
         · cases he
       · cases hs
 
 theorem fslRange_parts {len : Nat} {n : Int} {i s e : Nat} (h : fslRange Fixes.all len n i = .ok (s, e)) :
-    s = i * n.toNat ∧ e - s = n.toNat := by
+    i < len ∧ 0 ≤ n ∧ s = i * n.toNat ∧ e = (i + 1) * n.toNat := by
   unfold fslRange at h
   split at h
   · cases h
-  · obtain ⟨n', hn, h⟩ := ok_bind_inv h
+  · rename_i hlt
+    obtain ⟨n', hn, h⟩ := ok_bind_inv h
     unfold tryIntoUsize at hn
     split at hn
-    · cases hn
+    · rename_i h0
+      cases hn
       split at h
       · simp only [show Fixes.all.fslMul = true from rfl, if_true] at h; cases h
       · simp only [pure, Except.pure, Except.ok.injEq, Prod.mk.injEq] at h
-        obtain ⟨hs, he⟩ := h
-        subst hs he
-        refine ⟨rfl, ?_⟩
-        rw [Nat.add_mul]; omega
+        exact ⟨by omega, h0, h.1.symm, h.2.symm⟩
     · cases hn
 
 theorem unionSelect_parts {types : List Int} {offs : Option (List Int)} {n i k off : Nat}
@@ -96,75 +90,131 @@ theorem unionSelect_parts {types : List Int} {offs : Option (List Int)} {n i k o
           · cases hoff
         · cases h
 
+/-- an element loop over two children that agree on the designated range -/
+theorem readRange_elems {α} {et : Target} {el el' : Arr} {s e : Nat} (f : Arr → Nat → R α) (h : ElemsAgree et el el' s e)
+    (hf : ∀ j, touchEq et el el' j = true → f el j = f el' j) :
+    readRange (f el) s (e - s) = readRange (f el') s (e - s) := by
+  rcases h with rfl | hall
+  · rfl
+  · exact readRange_congr _ _ (fun k hk => hf (s + k) (hall k hk))
+
+/-- the trait default `deserialize_any`: `is_some`, then `deserialize_any_some` where it said yes -/
+theorem anyAt_agree {p : Target} {a a' : Arr} {i : Nat} (h : touchEqW true p a a' i = true)
+    (hrec : touchEqW false p a a' i = true → readAnySome Fixes.all a i = readAnySome Fixes.all a' i) :
+    anyAt Fixes.all a (readAnySome Fixes.all a) i = anyAt Fixes.all a' (readAnySome Fixes.all a') i := by
+  unfold anyAt
+  have hs := isSome_agree h
+  rw [hs]
+  cases hb : isSome Fixes.all a' i with
+  | error e => rfl
+  | ok b =>
+    cases b with
+    | false => rfl
+    | true =>
+      simp only [bind, Except.bind, if_true]
+      exact hrec (touchEqW_weaken h (hs.trans hb))
+
+theorem anyLike_cases {p : Target} (h : isAnyLike p = true) : p = .any ∨ p = .ignored := by
+  cases p <;> simp [isAnyLike] at h
+  · exact Or.inl rfl
+  · exact Or.inr rfl
+
+theorem structContent_anyLike {p : Target} (hp : isAnyLike p = true) (fs fs' : ArrFields) (i : Nat) :
+    structContent p fs fs' i = allEq .any fs fs' i := by
+  rcases anyLike_cases hp with rfl | rfl <;> rfl
+
+theorem readsList_anyLike {p : Target} (hp : isAnyLike p = true) : readsList p = true ∧ elemTarget? p = some .any ∧
+    fslElemTarget? p = some .any ∧ entryTargets? p = some (.any, .any) ∧ ∀ k, variantTarget? p k = fun _ => some .any := by
+  rcases anyLike_cases hp with rfl | rfl <;> exact ⟨rfl, rfl, rfl, rfl, fun _ => rfl⟩
+
 mutual
-theorem anySome_agree : ∀ (a a' : Arr) (i : Nat), reachEq a a' i = true →
+theorem anySome_agree : ∀ (a a' : Arr) (i : Nat) (p : Target), isAnyLike p = true → touchEqW false p a a' i = true →
     readAnySome Fixes.all a i = readAnySome Fixes.all a' i
-  | .null len, a', i, h => by
-    obtain ⟨len', rfl, hl⟩ := reachEq_null h; unfold readAnySome; simp only [nullCheck_congr hl]
-  | .boolean len v vals, a', i, h => by
-    obtain ⟨len', v', vals', rfl, hl, hv, hb⟩ := reachEq_boolean h; unfold readAnySome; simp only [boolGet_congr hl hv hb]
-  | .prim ty v vals, a', i, h => by
-    obtain ⟨v', vals', rfl, hv, hx⟩ := reachEq_prim h; unfold readAnySome; simp only [primGet_congr hv hx]
-  | .time ty u v vals, a', i, h => by
-    obtain ⟨v', vals', rfl, hv, hx⟩ := reachEq_time h; unfold readAnySome; simp only [primGet_congr hv hx]
-  | .timestamp u tz v vals, a', i, h => by
-    obtain ⟨v', vals', rfl, hv, hx⟩ := reachEq_timestamp h; unfold readAnySome; simp only [primGet_congr hv hx]
-  | .decimal128 p s v vals, a', i, h => by
-    obtain ⟨v', vals', rfl, hv, hx⟩ := reachEq_decimal h; unfold readAnySome; simp only [primGet_congr hv hx]
-  | .bytes ty v offs data, a', i, h => by
-    obtain ⟨v', offs', rfl, hv, h0, h1⟩ := reachEq_bytes h; unfold readAnySome; simp only [bytesColGet_congr hv h0 h1]
-  | .bytesView ty v views buffers, a', i, h => by
-    obtain ⟨v', views', rfl, hv, hx⟩ := reachEq_bytesView h; unfold readAnySome; simp only [viewColGet_congr hv hx]
-  | .fixedSizeBinary n v data, a', i, h => by
-    obtain ⟨v', rfl, hv⟩ := reachEq_fsb h; unfold readAnySome; simp only [fsbColGet_congr hv]
-  | .struct len v fs, a', i, h => by
-    obtain ⟨len', v', fs', rfl, hl, hv, hfs⟩ := reachEq_struct h
-    have : (i ≥ len) = (i ≥ len') := by
-      apply propext; have := Eq.to_iff hl; omega
+  | .null len, a', i, p, _, h => by
+    obtain ⟨len', rfl, hl⟩ := touchEqW_null h; unfold readAnySome; simp only [nullCheck_congr hl]
+  | .boolean len v vals, a', i, p, _, h => by
+    obtain ⟨len', v', vals', rfl, hs⟩ := touchEqW_boolean h; unfold readAnySome; simp only [boolGet_congr hs]
+  | .prim ty v vals, a', i, p, _, h => by
+    obtain ⟨v', vals', rfl, hs⟩ := touchEqW_prim h; unfold readAnySome; simp only [primGet_congr hs]
+  | .time ty u v vals, a', i, p, _, h => by
+    obtain ⟨v', vals', rfl, hs⟩ := touchEqW_time h; unfold readAnySome; simp only [primGet_congr hs]
+  | .timestamp u tz v vals, a', i, p, _, h => by
+    obtain ⟨v', vals', rfl, hs⟩ := touchEqW_timestamp h; unfold readAnySome; simp only [primGet_congr hs]
+  | .decimal128 pr s v vals, a', i, p, _, h => by
+    obtain ⟨v', vals', rfl, hs⟩ := touchEqW_decimal h; unfold readAnySome; simp only [primGet_congr hs]
+  | .bytes ty v offs data, a', i, p, _, h => by
+    obtain ⟨v', offs', data', rfl, hs⟩ := touchEqW_bytes h; unfold readAnySome; simp only [bytesColGet_congr hs]
+  | .bytesView ty v views buffers, a', i, p, _, h => by
+    obtain ⟨v', views', buffers', rfl, hs⟩ := touchEqW_bytesView h; unfold readAnySome; simp only [viewColGet_congr hs]
+  | .fixedSizeBinary n v data, a', i, p, _, h => by
+    obtain ⟨v', data', rfl, hs⟩ := touchEqW_fsb h; unfold readAnySome; simp only [fsbColGet_congr hs]
+  | .struct len v fs, a', i, p, hp, h => by
+    obtain ⟨len', v', fs', rfl, hl, _, hc⟩ := touchEqW_struct h
     unfold readAnySome
-    simp only [this, anyFields_agree fs fs' i hfs]
-  | .list l v offs fm el, a', i, h => by
-    obtain ⟨l', v', offs', fm', el', rfl, hv, h0, h1, hel⟩ := reachEq_list h
+    simp only [ge_of_lt_eq hl]
+    by_cases hi : i < len
+    · have hfs := hc hi (fun h => nomatch h)
+      rw [structContent_anyLike hp] at hfs
+      simp only [anyFields_agree fs fs' i hfs]
+    · have : i ≥ len' := by have : ¬ i < len' := hl ▸ hi; omega
+      simp only [this, if_true]
+  | .list l v offs fm el, a', i, p, hp, h => by
+    obtain ⟨l', v', offs', fm', el', rfl, hl, _, hc⟩ := touchEqW_list h
+    obtain ⟨hrl, het, _⟩ := readsList_anyLike hp
+    have hlr := listRange_congr hl (fun hi => ⟨(hc hi (fun h => nomatch h) hrl).1, (hc hi (fun h => nomatch h) hrl).2.1⟩)
     unfold readAnySome
-    rw [listRange_congr h0 h1]
+    rw [hlr]
     cases hr : listRange Fixes.all offs' i with
     | error e => rfl
     | ok r =>
       obtain ⟨s, e⟩ := r
-      have hor := listRange_offRange ((listRange_congr h0 h1).trans hr)
-      simp only [hor] at hel
-      have hpt : ∀ k, k < e - s → anyAt Fixes.all el (readAnySome Fixes.all el) (s + k) =
-          anyAt Fixes.all el' (readAnySome Fixes.all el') (s + k) := fun k hk =>
-        anyAt_congr (isSome_agree (hel k hk)) (anySome_agree el el' (s + k) (hel k hk))
-      simp only [bind, Except.bind]
-      rw [readRange_congr (e - s) s hpt]
-  | .fixedSizeList len v n fm el, a', i, h => by
-    obtain ⟨len', v', fm', el', rfl, hl, hv, hel⟩ := reachEq_fsl h
+      obtain ⟨hi, hs, he⟩ := listRange_parts (hlr.trans hr)
+      have hel := (hc hi (fun h => nomatch h) hrl).2.2 .any s e het hs he
+      have hrr := readRange_elems (fun el j => anyAt Fixes.all el (readAnySome Fixes.all el) j) hel (fun j hj =>
+        anyAt_agree (p := .any) (by rw [← touchEq_any]; exact hj) (anySome_agree el el' j .any rfl))
+      simp only [bind, Except.bind] at hrr ⊢
+      rw [hrr]
+  | .fixedSizeList len v n fm el, a', i, p, hp, h => by
+    obtain ⟨len', v', fm', el', rfl, hl, _, hc⟩ := touchEqW_fsl h
+    obtain ⟨_, _, het, _⟩ := readsList_anyLike hp
     unfold readAnySome
     rw [fslRange_congr hl]
     cases hr : fslRange Fixes.all len' n i with
     | error e => rfl
     | ok r =>
       obtain ⟨s, e⟩ := r
-      obtain ⟨hs, he⟩ := fslRange_parts hr
-      have hpt : ∀ k, k < e - s → anyAt Fixes.all el (readAnySome Fixes.all el) (s + k) =
-          anyAt Fixes.all el' (readAnySome Fixes.all el') (s + k) := by
-        intro k hk
-        have hk' := hel k (by omega)
-        rw [← hs] at hk'
-        exact anyAt_congr (isSome_agree hk') (anySome_agree el el' (s + k) hk')
-      simp only [bind, Except.bind]
-      rw [readRange_congr (e - s) s hpt]
-  | .map v offs mm ks vs, a', i, h => by
-    obtain ⟨v', offs', mm', ks', vs', rfl, hv, h0, h1, hks, hvs⟩ := reachEq_map h
+      obtain ⟨hi, hn, hs, he⟩ := fslRange_parts ((fslRange_congr hl).trans hr)
+      have hel := hc hi (fun h => nomatch h) .any het hn
+      rw [← hs, ← he] at hel
+      have hrr := readRange_elems (fun el j => anyAt Fixes.all el (readAnySome Fixes.all el) j) hel (fun j hj =>
+        anyAt_agree (p := .any) (by rw [← touchEq_any]; exact hj) (anySome_agree el el' j .any rfl))
+      simp only [bind, Except.bind] at hrr ⊢
+      rw [hrr]
+  | .map v offs mm ks vs, a', i, p, hp, h => by
+    obtain ⟨v', offs', mm', ks', vs', rfl, hl, _, hc⟩ := touchEqW_map h
+    obtain ⟨_, _, _, het, _⟩ := readsList_anyLike hp
+    have hlr := listRange_congr hl (fun hi =>
+      ⟨(hc hi (fun h => nomatch h) .any .any het).1, (hc hi (fun h => nomatch h) .any .any het).2.1⟩)
     unfold readAnySome
-    rw [listRange_congr h0 h1]
+    rw [hlr]
     cases hr : listRange Fixes.all offs' i with
     | error e => rfl
     | ok r =>
       obtain ⟨s, e⟩ := r
-      have hor := listRange_offRange ((listRange_congr h0 h1).trans hr)
-      simp only [hor] at hks hvs
+      obtain ⟨hi, hs, he⟩ := listRange_parts (hlr.trans hr)
+      obtain ⟨hks, hvs⟩ := (hc hi (fun h => nomatch h) .any .any het).2.2 s e hs he
+      have hk : ∀ k, k < e - s → anyAt Fixes.all ks (readAnySome Fixes.all ks) (s + k) =
+          anyAt Fixes.all ks' (readAnySome Fixes.all ks') (s + k) := by
+        rcases hks with rfl | hall
+        · intro k _; rfl
+        · intro k hk
+          exact anyAt_agree (p := .any) (by rw [← touchEq_any]; exact hall k hk) (anySome_agree ks ks' (s + k) .any rfl)
+      have hv : ∀ k, k < e - s → anyAt Fixes.all vs (readAnySome Fixes.all vs) (s + k) =
+          anyAt Fixes.all vs' (readAnySome Fixes.all vs') (s + k) := by
+        rcases hvs with rfl | hall
+        · intro k _; rfl
+        · intro k hk
+          exact anyAt_agree (p := .any) (by rw [← touchEq_any]; exact hall k hk) (anySome_agree vs vs' (s + k) .any rfl)
       have hrr : readRange (fun j => do
             let k' ← anyAt Fixes.all ks (readAnySome Fixes.all ks) j
             let v' ← anyAt Fixes.all vs (readAnySome Fixes.all vs) j
@@ -173,18 +223,17 @@ theorem anySome_agree : ∀ (a a' : Arr) (i : Nat), reachEq a a' i = true →
             let k' ← anyAt Fixes.all ks' (readAnySome Fixes.all ks') j
             let v' ← anyAt Fixes.all vs' (readAnySome Fixes.all vs') j
             pure (k', v')) s (e - s) := by
-        refine readRange_congr _ _ (fun k hk => ?_)
-        have e1 := anyAt_congr (isSome_agree (hks k hk)) (anySome_agree ks ks' (s + k) (hks k hk))
-        have e2 := anyAt_congr (isSome_agree (hvs k hk)) (anySome_agree vs vs' (s + k) (hvs k hk))
-        simp only [e1, e2]
+        refine readRange_congr _ _ (fun k hkk => ?_)
+        simp only [hk k hkk, hv k hkk]
       simp only [bind, Except.bind] at hrr ⊢
       rw [hrr]
-  | .dictionary ks vs, a', i, h => by
-    obtain ⟨ks', vs', rfl, _⟩ := reachEq_dictionary h
+  | .dictionary ks vs, a', i, p, _, h => by
+    obtain ⟨ks', vs', rfl, _⟩ := touchEqW_dictionary h
     unfold readAnySome
     simp only [dictGetStr_agree h]
-  | .union types offs fs, a', i, h => by
-    obtain ⟨types', offs', fs', rfl, hh, hlen, hvar⟩ := reachEq_union h
+  | .union types offs fs, a', i, p, hp, h => by
+    obtain ⟨types', offs', fs', rfl, hh, hlen, hvar⟩ := touchEqW_union h
+    obtain ⟨_, _, _, _, hvt⟩ := readsList_anyLike hp
     unfold readAnySome
     rw [unionSelect_congr hh, hlen]
     cases hr : unionSelect Fixes.all types' offs' fs'.length i with
@@ -194,49 +243,38 @@ theorem anySome_agree : ∀ (a a' : Arr) (i : Nat), reachEq a a' i = true →
       have hr' : unionSelect Fixes.all types offs fs'.length i = .ok (k, off) := (unionSelect_congr hh).trans hr
       obtain ⟨t, o, offv, ht, ho, hoff, h0, h1, hk, hof⟩ := unionSelect_parts hr'
       have := hvar t o offv ht ho hoff h0 h1
-      rw [← hk, ← hof] at this
+      rw [← hk, ← hof, hvt] at this
       simp only [bind, Except.bind]
       exact anyVariant_agree fs fs' k off this hlen
-theorem anyFields_agree : ∀ (fs fs' : ArrFields) (i : Nat), reachFields fs fs' i = true →
+theorem anyFields_agree : ∀ (fs fs' : ArrFields) (i : Nat), allEq .any fs fs' i = true →
     readAnyFields Fixes.all fs i = readAnyFields Fixes.all fs' i
   | .nil, fs', i, h => by
-    unfold reachFields at h
-    split at h
-    · rfl
-    · cases h
+    cases allEq_nil h
+    rfl
   | .cons fm a r, fs', i, h => by
-    unfold reachFields at h
-    split at h
-    · rename_i fm' a' r'
-      simp only [Bool.and_eq_true, decide_eq_true_eq] at h
-      unfold readAnyFields
-      rw [anyAt_congr (isSome_agree h.1.2) (anySome_agree a a' i h.1.2), anyFields_agree r r' i h.2, h.1.1]
-    · cases h
-theorem anyVariant_agree : ∀ (fs fs' : ArrUFields) (k j : Nat), reachVariant fs fs' k j = true → fs.length = fs'.length →
-    readAnyVariant Fixes.all fs k j = readAnyVariant Fixes.all fs' k j
+    obtain ⟨fm', a', r', rfl, hn, ha, hr⟩ := allEq_cons h
+    unfold readAnyFields
+    rw [anyAt_agree (p := .any) (by rw [← touchEq_any]; exact ha) (anySome_agree a a' i .any rfl),
+      anyFields_agree r r' i hr, hn]
+theorem anyVariant_agree : ∀ (fs fs' : ArrUFields) (k j : Nat), variantEq (fun _ => some .any) fs fs' k j = true →
+    fs.length = fs'.length → readAnyVariant Fixes.all fs k j = readAnyVariant Fixes.all fs' k j
   | .nil, fs', _, _, _, hl => by
     cases fs' with
     | nil => rfl
     | cons _ _ _ _ => simp [ArrUFields.length] at hl
   | .cons _ fm a _, fs', 0, j, h, hl => by
-    unfold reachVariant at h
-    split at h
-    · rename_i _ fm' a' _
-      simp only [Bool.and_eq_true, decide_eq_true_eq] at h
-      unfold readAnyVariant
-      rw [anyAt_congr (isSome_agree h.2) (anySome_agree a a' j h.2), h.1]
-    · cases h
+    obtain ⟨tid', fm', a', r', rfl, hn, ha⟩ := variantEq_zero h
+    unfold readAnyVariant
+    rw [anyAt_agree (p := .any) (by rw [← touchEq_any]; exact ha .any rfl) (anySome_agree a a' j .any rfl), hn]
   | .cons _ _ _ r, fs', k + 1, j, h, hl => by
-    unfold reachVariant at h
-    split at h
-    · rename_i r'
-      unfold readAnyVariant
-      exact anyVariant_agree r r' k j h (by simp [ArrUFields.length] at hl; exact hl)
-    · cases h
+    obtain ⟨tid', fm', a', r', rfl, hr⟩ := variantEq_succ h
+    unfold readAnyVariant
+    exact anyVariant_agree r r' k j hr (by simp [ArrUFields.length] at hl; exact hl)
 end
 
 /-- `deserialize_any` -/
-theorem readAny_agree {a a' : Arr} {i : Nat} (h : reachEq a a' i = true) : readAny Fixes.all a i = readAny Fixes.all a' i :=
-  anyAt_congr (isSome_agree h) (anySome_agree a a' i h)
+theorem readAny_agree {p : Target} (hp : isAnyLike p = true) {a a' : Arr} {i : Nat} (h : touchEqW true p a a' i = true) :
+    readAny Fixes.all a i = readAny Fixes.all a' i :=
+  anyAt_agree h (anySome_agree a a' i p hp)
 
 end SaModel.Props.C17
